@@ -247,7 +247,8 @@ Record dag := mkDag {
   d_fuel : nat;
   d_vis : nat -> list name;           (* L -> value nodes visited by trim *)
   d_log : nat -> list tev;
-  d_lvl : nat -> list (name * nat)    (* L -> level attribute (4 = value tree) *)
+  d_lvl : nat -> list (name * nat);   (* L -> level attribute (4 = value tree) *)
+  d_ancs : list (name * list name)    (* value node -> its 'ancestry' set *)
 }.
 Definition dfuel (e : engine) (fl : list name) : nat := S (length (build_order e) + length fl).
 
@@ -261,12 +262,23 @@ Definition construct (e : engine) (ro : list name) (fo : name -> list name) : da
   let P := snd (par_dfs E fuel rts ([], [])) in
   let FB := fun v => reorder (fo v) (adds [] (fb_of e v)) in
   let tr := fun L => trim_run (kids E) FB L fuel rts in
+  (* the three trees the code builds are computed once (tables), any other
+     granularity on demand *)
+  let tr1 := tr 1 in let tr2 := tr 2 in let tr3 := tr 3 in
+  let trf := fun L => match L with 1 => tr1 | 2 => tr2 | 3 => tr3 | _ => tr L end in
   let lv := fun L =>
     if Nat.eqb L 4 then lvl_run (kids E) fuel rts
-    else lvl_run (skids (snd (tr L))) fuel (map (trim L) rts) in
-  mkDag fl E rts (feedbacks e fl) P fuel (fun L => fst (tr L)) (fun L => snd (tr L)) lv.
+    else lvl_run (skids (snd (trf L))) fuel (map (trim L) rts) in
+  let lv1 := lv 1 in let lv2 := lv 2 in let lv3 := lv 3 in let lv4 := lv 4 in
+  let lvf := fun L => match L with 1 => lv1 | 2 => lv2 | 3 => lv3 | 4 => lv4 | _ => lv L end in
+  mkDag fl E rts (feedbacks e fl) P fuel (fun L => fst (trf L)) (fun L => snd (trf L)) lvf
+        (map (fun n => (n, ancestry P fuel n)) fl).
 
-Definition d_anc (d : dag) (n : name) : list name := ancestry (d_par d) (d_fuel d) n.
+Definition d_anc (d : dag) (n : name) : list name :=
+  match find (fun kv => name_eqb (fst kv) n) (d_ancs d) with
+  | Some kv => snd kv
+  | None => ancestry (d_par d) (d_fuel d) n
+  end.
 (* the trees *)
 Definition t_roots (d : dag) (L : nat) : list name := map (trim L) (d_roots d).   (* at / svt / tt *)
 Definition t_kids (d : dag) (L : nat) (x : name) : list name := skids (d_log d L) x.
@@ -327,19 +339,25 @@ Definition wf_engineb (e : engine) (rk : list (name * nat)) : bool :=
 Definition assoc_fo (l : list (name * list name)) (v : name) : list name :=
   match find (fun kv => name_eqb (fst kv) v) l with Some kv => snd kv | None => [] end.
 Definition obs_tree (d : dag) (L : nat) :=
+  let log := d_log d L in
+  let lv := d_lvl d L in
   (t_roots d L,
-   map (fun x => (x, t_kids d L x, t_fb d L x, t_lvl d L x)) (t_nodes d L)).
+   map (fun x => (x, skids log x, sfb log x, lvl_get lv x)) (t_nodes d L)).
 Definition observe (e : engine) (ro : list name) (fo : list (name * list name)) :=
   let d := construct e ro (assoc_fo fo) in
+  let lv4 := d_lvl d 4 in
+  let vis2 := d_vis d 2 in
+  let nodes2 := t_nodes d 2 in
+  let anc2 := map (fun x => (x, slift vis2 (d_anc d) x, slift vis2 (parents_of (d_par d)) x)) nodes2 in
   (d_flat d, d_roots d,
    map (fun n => (n, kids (d_edges d) n, parents_of (d_par d) n, d_anc d n,
-                  adds [] (fb_of e n), lvl_get (d_lvl d 4) n)) (d_flat d),
+                  adds [] (fb_of e n), lvl_get lv4 n)) (d_flat d),
    d_fbs d,
-   (obs_tree d 2, map (fun x => (x, t_anc d x, t_par d x)) (t_nodes d 2)),
+   (obs_tree d 2, anc2),
    obs_tree d 3, obs_tree d 1,
    (* = fst (graph_of e ro fo), without running construct twice *)
    map (fun g => (g_tag g, g_kids g, g_anc g, g_asp g, g_fac g, g_lvl g, g_ins g, g_outs g))
-       (map (gnode_of e d) (filter (fun b => mem (b_tag b) (t_nodes d 2)) (build_order e)))).
+       (map (gnode_of e d) (filter (fun b => mem (b_tag b) nodes2) (build_order e)))).
 
 (* ------------------------------------------------------------- examples *)
 (* a0 -> a1 -> a2, a0 -> a2 (value ref), a0 consumes a2's value as feedback *)
